@@ -205,12 +205,23 @@ def Elem.value : Elem → Option Bytes
   | .bare cs => some (cs.map (·.b))
   | .quoted cs => some (cs.map (·.b))
 
-/-- what the text must satisfy to be array syntax for that element -/
+/-- the last character of a bare element is not an unescaped blank -/
+def lastOk (cs : List Ch) : Bool :=
+  match cs.getLast? with
+  | some c => c.esc || !(isSpace c.b)
+  | none => false
+
+/-- what the text must satisfy to be array syntax for that element: NULL is the word `null` in
+    any letter case; in a bare element NUL never occurs, `" \ , }` occur only escaped, the first
+    byte is not a blank, a blank at the end is escaped, and the text is not the word `null`;
+    in a quoted element NUL never occurs and `" \` occur only escaped -/
 def Elem.valid : Elem → Bool
   | .null sp => isNullWord sp
   | .bare cs =>
       cs ≠ [] ∧ cs.all (fun c => c.b ≠ 0 ∧ (c.esc ∨ (c.b ≠ cDQ ∧ c.b ≠ cBS ∧ c.b ≠ cComma ∧ c.b ≠ cRBrace)))
-      ∧ !(isSpace ((renderChars cs).headD 0)) ∧ !(isSpace ((renderChars cs).getLastD 0))
+      ∧ !(isSpace ((renderChars cs).headD 0))
+      -- a blank at the very end must be escaped (an unescaped one would be trimmed)
+      ∧ lastOk cs
       ∧ !(isNullWord (renderChars cs))
   | .quoted cs => cs.all (fun c => c.b ≠ 0 ∧ (c.esc ∨ (c.b ≠ cDQ ∧ c.b ≠ cBS)))
 
